@@ -69,28 +69,33 @@ def coq_make(targets, timeout=1500):
     return rc, out
 
 
-def scan_forbidden():
+def scan_forbidden(only=None):
+    """scan the development for forbidden constructs. only = list of files (relative to coq/) to restrict
+    the scan to (the dependency closure of one property); None = everything."""
     hits = []
-    for root, _, files in os.walk(COQ):
-        for f in files:
-            if not f.endswith(".v"):
-                continue
-            p = os.path.join(root, f)
-            txt = open(p, errors="replace").read()
-            # strip comments (non-nested approximation is enough: we forbid the words in code)
-            code = strip_comments(txt)
-            in_section = 0
-            for ln, line in enumerate(code.split("\n"), 1):
-                if re.match(r"\s*Section\b", line):
-                    in_section += 1
-                if re.match(r"\s*End\b", line) and in_section > 0:
-                    in_section -= 1
-                m = FORBIDDEN.search(line)
-                if m:
-                    w = m.group(1)
-                    if w in ("Variable", "Hypothesis") and in_section > 0:
-                        continue
-                    hits.append("%s:%d: %s" % (os.path.relpath(p, COQ), ln, line.strip()[:120]))
+    paths = []
+    if only is not None:
+        paths = [os.path.join(COQ, f) for f in only if os.path.exists(os.path.join(COQ, f))]
+    else:
+        for root, _, files in os.walk(COQ):
+            for f in files:
+                if f.endswith(".v"):
+                    paths.append(os.path.join(root, f))
+    for p in sorted(paths):
+        txt = open(p, errors="replace").read()
+        code = strip_comments(txt)
+        in_section = 0
+        for ln, line in enumerate(code.split("\n"), 1):
+            if re.match(r"\s*Section\b", line):
+                in_section += 1
+            if re.match(r"\s*End\b", line) and in_section > 0:
+                in_section -= 1
+            m = FORBIDDEN.search(line)
+            if m:
+                w = m.group(1)
+                if w in ("Variable", "Hypothesis") and in_section > 0:
+                    continue
+                hits.append("%s:%d: %s" % (os.path.relpath(p, COQ), ln, line.strip()[:120]))
     return hits
 
 
